@@ -136,6 +136,24 @@ CLAIMED = {
             "behaviour; each is run through the real binary (symlink of that name) and compared: what happened to the "
             "operand, where output went, level digit, exit status.",
             "Exhaustive over the token sets of tools/checks/c22.py.", "DESIGN.md 3 (C22)"),
+    "C12": ("model_checking", "TLC model checking of the locking protocol (Locks.tla: threads as programs over acquire/release/wait and the hooked transitions with read/write sets) + TLC trace validation of the (role, event, monitors held) signature on runs recorded with a ThreadSanitizer-built binary",
+            "Locks.tla: every interleaving of reader, writer, two workers (one the primary thread) and main for compress, "
+            "expand and copy mode: never two threads simultaneously at conflicting accesses, every access outside the "
+            "single-threaded phases holds the variable's monitor (documented exception: reader's read of tail_offs), lock "
+            "order sched > source/sink, no deadlock.  TraceLocks.tla accepts recorded traces only if every event was "
+            "emitted by a thread of the role and holding exactly the monitors of a model transition.  The recorder is "
+            "built with ThreadSanitizer; any report is an access outside the discipline.",
+            "Model exhaustive for the five threads of Locks.tla; real schedules/inputs sampled.  Accesses the hooks do not "
+            "see are decided only by the ThreadSanitizer leg (auxiliary observer, outside the TLA+ family; DESIGN.md 3 (C12)).",
+            "DESIGN.md 3 (C12)"),
+    "C21": ("fault_enumeration", "TLC model checking of the error protocol with liveness (Fail.tla) + every model behaviour replayed at every read/write call position of real filter runs (LD_PRELOAD injection) + kernel-made faults",
+            "Fail.tla: reader / writer / workers / main in sigsuspend with one failing call (EIO, ENOSPC, EPIPE, EFBIG; SIGPIPE / "
+            "SIGXFSZ default or ignored), bailout() as three interleaved steps: never exit 0 after a failure, documented "
+            "status or signal, diagnostic iff not EPIPE/EFBIG, termination under fairness.  Each behaviour is replayed at "
+            "every read / write position of compress (both modes), decompress and -cdf runs; plus early-closed pipes, "
+            "/dev/full, RLIMIT_FSIZE and a directory as stdin.",
+            "Exhaustive over the call positions of the listed scenario runs; 'promptly' = within 20 s wall time.",
+            "DESIGN.md 3 (C21)"),
 }
 
 NOT_YET = "check not built yet in this round; planned in DESIGN.md section 3"
